@@ -483,11 +483,11 @@ theorem for_lemma (lp : Option (Name × Name)) (pb pc : Nat) (v : Name) (ix : Op
   have hg7 : P[pre.length + 6 + T.length + C.length + 1]? =
       some (.jump (lLoop i) (some (.binary .lt (.variable ixv) (.variable (vLength i))))) :=
     get_at (A := pre ++ H ++ T ++ C ++ [.expr (some ixv) (.binary .add (.variable ixv) (.number 1))])
-      (by rw [hPH]; simp [List.append_assoc]) (by simp <;> omega)
+      (B := .label (lDone i) :: post) (by rw [hPH]; simp [List.append_assoc]) (by simp <;> omega)
   have hg8 : P[pre.length + 6 + T.length + C.length + 2]? = some (.label (lDone i)) :=
     get_at (A := pre ++ H ++ T ++ C ++ [.expr (some ixv) (.binary .add (.variable ixv) (.number 1)),
       .jump (lLoop i) (some (.binary .lt (.variable ixv) (.variable (vLength i))))])
-      (by rw [hPH]; simp [List.append_assoc]) (by simp <;> omega)
+      (B := post) (by rw [hPH]; simp [List.append_assoc]) (by simp <;> omega)
   have hfl : findLabel P (lLoop i) = some (pre.length + 4) :=
     find_at (A := pre ++ [.expr (some (vValues i)) vals,
       .expr (some (vLength i)) (.function fnArrayLength [.variable (vValues i)]),
@@ -500,7 +500,7 @@ theorem for_lemma (lp : Option (Name × Name)) (pb pc : Nat) (v : Name) (ix : Op
   have hfd : findLabel P (lDone i) = some (pre.length + 6 + T.length + C.length + 2) :=
     find_at (A := pre ++ H ++ T ++ C ++ [.expr (some ixv) (.binary .add (.variable ixv) (.number 1)),
       .jump (lLoop i) (some (.binary .lt (.variable ixv) (.variable (vLength i))))])
-      (by rw [hPH]; simp [List.append_assoc]) (by simp <;> omega)
+      (B := post) (by rw [hPH]; simp [List.append_assoc]) (by simp <;> omega)
       (by
         intro hm
         simp only [List.mem_append, List.mem_cons, List.not_mem_nil, or_false, false_or, reduceCtorEq] at hm
@@ -513,7 +513,9 @@ theorem for_lemma (lp : Option (Name × Name)) (pb pc : Nat) (v : Name) (ix : Op
   have hfc : hc = true → findLabel P (lCont i) = some (pre.length + 6 + T.length + C.length - 1) := by
     intro h; subst h
     simp only [if_true] at hC; subst hC
-    refine find_at (A := pre ++ H ++ T) (by rw [hPH]; simp [List.append_assoc]) (by simp <;> omega) ?_
+    refine find_at (A := pre ++ H ++ T) (B := .expr (some ixv) (.binary .add (.variable ixv) (.number 1)) ::
+      .jump (lLoop i) (some (.binary .lt (.variable ixv) (.variable (vLength i)))) ::
+      .label (lDone i) :: post) (by rw [hPH]; simp [List.append_assoc]) (by simp <;> omega) ?_
     intro hm
     simp only [List.mem_append] at hm
     rcases hm with (hm | hm) | hm
@@ -540,8 +542,93 @@ theorem for_lemma (lp : Option (Name × Name)) (pb pc : Nat) (v : Name) (ix : Op
       · simp only [lDone, Name.gen.injEq] at hm; omega
       · exact hf2 K k (by omega) b hm)
   simp only [List.length_append, hHn, hT, Option.isSome_some] at hbody
-  trace_state
-  sorry
+  have hafter : ∀ X : List Stmt, X.length = 3 →
+      pre.length + (H ++ T ++ (C ++ X)).length = pre.length + 6 + T.length + C.length + 3 := by
+    intro X hX; simp only [List.length_append, hHn, hX]; omega
+  rw [hafter _ rfl]
+  -- the iterations
+  have hloop : ∀ n f l st, f < n → execM₀ cfg f P l base (pre.length + 5) st =
+      Cont cfg P base pb pc (pre.length + 6 + T.length + C.length + 3)
+        (loopF cfg (callValue₀ cfg) i v ixv hc
+          (fun f l s => execTB cfg (callValue₀ cfg) (execIncludes₀ cfg) true b (i+1) f l base s) n f l st) := by
+    intro n
+    induction n with
+    | zero => intro f l st h; omega
+    | succ n ih =>
+      intro f l st hlt
+      have hAfter : ∀ l2 st2 f2, f2 ≤ n → execM₀ cfg f2 P l2 base (pre.length + 6 + T.length + C.length) st2 =
+          Cont cfg P base pb pc (pre.length + 6 + T.length + C.length + 3)
+            (forAfter cfg (callValue₀ cfg) i v ixv hc
+              (fun f l s => execTB cfg (callValue₀ cfg) (execIncludes₀ cfg) true b (i+1) f l base s) n l2 st2 f2) := by
+        intro l2 st2 f2 h2
+        refine step_expr hg6 _ _ _ _ ?_
+        intro l3 st3 f3 h3
+        refine step_cond hg7 hfl _ _ _ _ ?_
+        intro t f4 st4 h4
+        cases t with
+        | true => simp only [if_true]; exact ih f4 l3 st4 (by omega)
+        | false =>
+          simp only [Bool.false_eq_true, if_false]
+          rw [bind_stmtSkip, exec_label cfg f4 P l3 base _ st4 _ hg8]
+      rw [loopF_succ]
+      refine step_expr hg5 _ _ _ _ ?_
+      intro l0 st0 f0 h0
+      have hb := hbody f0 l0 st0
+      have hok := execTB_ok cfg (callValue₀ cfg) (execIncludes₀ cfg) true b (i+1) f0 l0 base st0
+      rw [show pre.length + 5 + 1 = pre.length + 6 from rfl, hb]
+      cases hO : execTB cfg (callValue₀ cfg) (execIncludes₀ cfg) true b (i+1) f0 l0 base st0 with
+      | norm l1 st1 f1 =>
+        simp only [hO, FuelOK] at hok
+        show execM₀ cfg f1 P l1 base (pre.length + 6 + T.length) st1 = TOut.bind (if hc = true then _ else _) _ _ _
+        cases hc with
+        | true =>
+          simp only [if_true]
+          have hC' : C = [.label (lCont i)] := by rw [← hC]; rfl
+          have hg9 : P[pre.length + 6 + T.length]? = some (.label (lCont i)) :=
+            get_at (A := pre ++ H ++ T) (B := .expr (some ixv) (.binary .add (.variable ixv) (.number 1)) ::
+              .jump (lLoop i) (some (.binary .lt (.variable ixv) (.variable (vLength i)))) ::
+              .label (lDone i) :: post) (by rw [hPH, hC']; simp [List.append_assoc]) (by simp <;> omega)
+          refine step_label hg9 _ _ _ _ ?_
+          intro l2 st2 f2 h2
+          have := hAfter l2 st2 f2 (by omega)
+          subst hC'
+          simp only [List.length_singleton] at this ⊢
+          exact this
+        | false =>
+          have hC' : C = [] := by rw [← hC]; rfl
+          have := hAfter l1 st1 f1 (by omega)
+          subst hC'
+          simp only [List.length_nil, Nat.add_zero, Bool.false_eq_true, if_false] at this ⊢
+          exact this
+      | cont l1 st1 f1 =>
+        simp only [hO, FuelOK] at hok
+        show execM₀ cfg f1 P l1 base (pre.length + 6 + T.length + C.length - 1 + 1) st1 = _
+        rw [show pre.length + 6 + T.length + C.length - 1 + 1 = pre.length + 6 + T.length + C.length by omega]
+        exact hAfter l1 st1 f1 (by omega)
+      | brk l1 st1 f1 =>
+        show execM₀ cfg f1 P l1 base _ st1 = execM₀ cfg f1 P l1 base _ st1
+        congr 1
+      | ret v st1 => rfl
+      | err e st1 => rfl
+      | oof => rfl
+  refine step_expr hg0 _ _ _ _ ?_
+  intro l1 st1 f1 _
+  refine step_expr hg1 _ _ _ _ ?_
+  intro l2 st2 f2 _
+  refine step_cond hg2 hfd _ _ _ _ ?_
+  intro t f3 st3 _
+  cases t with
+  | true =>
+    simp only [if_true]
+    show execM₀ cfg f3 P l2 base _ st3 = execM₀ cfg f3 P l2 base _ st3
+    congr 1
+  | false =>
+    simp only [Bool.false_eq_true, if_false]
+    refine step_expr hg3 _ _ _ _ ?_
+    intro l4 st4 f4 _
+    refine step_label hg4 _ _ _ _ ?_
+    intro l5 st5 f5 _
+    exact hloop (f5+1) f5 l5 st5 (Nat.lt_succ_self _)
 
 mutual
 theorem simS (lp : Option (Name × Name)) (pb pc : Nat)
